@@ -48,6 +48,7 @@ func abciProfile() *Profile {
 	p.PSlash, p.PGas, p.PCrash = 0, 0, 0
 	p.PEvidence, p.PDowntime = 0.05, 0.05
 	p.FeeTopups = false
+	p.NoLongAddr = true
 	p.MaxBlocks = 30
 	return p
 }
